@@ -196,6 +196,88 @@ func sign(i int) int8 {
 	return 0
 }
 
+// ---- failure classes ----
+//
+// A Sig is "<oracle>|<mode>|[<context>|]<type pair>". The type pair names the JSON types of the field that
+// separates the two keys which seed a comparer's memory (the first key a comparer instance compares): the
+// one field whose JSON type differs between the two keys ("same-types" if none, "several-fields" if the
+// types differ in both fields, which cannot be attributed to one type pair).
+//   history-dependence: the two histories' first keys (warm-up's first key vs the compared pair's first key);
+//   not-antisymmetric / not-transitive: x vs y (compare(x,y), compare(x,z) are seeded by x, compare(y,x), compare(y,z) by y).
+// Context "separate-instances": every comparison is made by its own fresh instance (after the same warm-up, if
+// any); "one-instance": all comparisons of the case are made by one live instance.
+
+func jtype(k key, f string) string {
+	v, ok := k[f]
+	if !ok {
+		return "missing"
+	}
+	switch v.(type) {
+	case nil:
+		return "null"
+	case bool:
+		return "bool"
+	case float64:
+		return "number"
+	case string:
+		return "string"
+	}
+	return fmt.Sprintf("%T", v)
+}
+
+var typeRank = map[string]int{"missing": 0, "null": 1, "bool": 2, "number": 3, "string": 4}
+
+func (m mode) fields() []string {
+	if m.Spec != nil {
+		var l []string
+		for _, f := range m.Spec {
+			l = append(l, f.FieldName)
+		}
+		return l
+	}
+	if m.TwoFields {
+		return []string{"a", "b"}
+	}
+	return []string{"a"}
+}
+
+func typePair(m mode, k1, k2 key) string {
+	pair := "same-types"
+	for _, f := range m.fields() {
+		t1, t2 := jtype(k1, f), jtype(k2, f)
+		if t1 != t2 {
+			if pair != "same-types" {
+				return "several-fields" // types differ in more than one field: not attributable to one type pair
+			}
+			if typeRank[t1] > typeRank[t2] {
+				t1, t2 = t2, t1
+			}
+			pair = t1 + "~" + t2
+		}
+	}
+	return pair
+}
+
+func typesOf(m mode, k key) string {
+	var l []string
+	for _, f := range m.fields() {
+		l = append(l, jtype(k, f))
+	}
+	return strings.Join(l, ",")
+}
+
+// pairTable[i*n+j] = typePair(keys[i], keys[j]).
+func pairTable(m mode, d kdom) []string {
+	n := len(d.keys)
+	t := make([]string, n*n)
+	for i := 0; i < n; i++ {
+		for j := 0; j < n; j++ {
+			t[i*n+j] = typePair(m, d.keys[i], d.keys[j])
+		}
+	}
+	return t
+}
+
 // ---- violation candidates (made deterministic in the parent: lowest job index wins per Sig) ----
 
 type collector struct {
@@ -242,39 +324,43 @@ func firstMatrix(m mode, d kdom) matrix {
 
 type axiomStats struct{ refl, anti, trans int64 }
 
-// checkAxioms verifies that M is the sign matrix of a total preorder.
-func checkAxioms(c *collector, m mode, d kdom, M matrix, what string, whatReplay any) axiomStats {
+// checkAxioms verifies that M (one comparison per cell, each by its own instance) is the sign matrix of a total preorder.
+func checkAxioms(c *collector, m mode, d kdom, tp []string, M matrix, what string, whatReplay any) axiomStats {
 	n := len(d.keys)
 	var st axiomStats
+	const ctxName = "separate-instances"
 	for i := 0; i < n; i++ {
 		if M[i*n+i] != 0 {
 			st.refl++
-			c.violate("reflexive|"+m.Name, fmt.Sprintf("mode %s, %s: compare(%s,%s)=%d, want 0", m.Name, what, d.labels[i], d.labels[i], M[i*n+i]),
+			c.violate("not-reflexive|"+m.Name+"|"+ctxName+"|"+typesOf(m, d.keys[i]), fmt.Sprintf("mode %s, %s: compare(%s,%s)=%d, want 0", m.Name, what, d.labels[i], d.labels[i], M[i*n+i]),
 				map[string]any{"mode": m.Name, "context": whatReplay, "x": d.keys[i]})
 		}
 		for j := 0; j < n; j++ {
 			if M[i*n+j] != -M[j*n+i] {
 				st.anti++
-				if c.has("antisymmetric|" + m.Name) {
+				if i > j {
+					continue // the unordered pair was reported at (j,i)
+				}
+				sig := "not-antisymmetric|" + m.Name + "|" + ctxName + "|" + tp[i*n+j]
+				if c.has(sig) {
 					continue
 				}
-				c.violate("antisymmetric|"+m.Name, fmt.Sprintf("mode %s, %s: sign compare(%s,%s)=%d but sign compare(%s,%s)=%d (must be opposite)", m.Name, what, d.labels[i], d.labels[j], M[i*n+j], d.labels[j], d.labels[i], M[j*n+i]),
+				c.violate(sig, fmt.Sprintf("mode %s, %s: sign compare(%s,%s)=%d but sign compare(%s,%s)=%d (must be opposite)", m.Name, what, d.labels[i], d.labels[j], M[i*n+j], d.labels[j], d.labels[i], M[j*n+i]),
 					map[string]any{"mode": m.Name, "context": whatReplay, "x": d.keys[i], "y": d.keys[j]})
 			}
 		}
 	}
 	for i := 0; i < n; i++ {
 		for j := 0; j < n; j++ {
-			if M[i*n+j] > 0 {
-				continue
-			}
 			for k := 0; k < n; k++ {
-				if M[j*n+k] <= 0 && M[i*n+k] > 0 {
+				// transitivity of <= and of >= (equivalent only if the matrix is antisymmetric)
+				if (M[i*n+j] <= 0 && M[j*n+k] <= 0 && M[i*n+k] > 0) || (M[i*n+j] >= 0 && M[j*n+k] >= 0 && M[i*n+k] < 0) {
 					st.trans++
-					if c.has("transitive|" + m.Name) {
+					sig := "not-transitive|" + m.Name + "|" + ctxName + "|" + tp[i*n+j]
+					if c.has(sig) {
 						continue
 					}
-					c.violate("transitive|"+m.Name, fmt.Sprintf("mode %s, %s: %s<=%s (%d) and %s<=%s (%d) but compare(%s,%s)=%d", m.Name, what, d.labels[i], d.labels[j], M[i*n+j], d.labels[j], d.labels[k], M[j*n+k], d.labels[i], d.labels[k], M[i*n+k]),
+					c.violate(sig, fmt.Sprintf("mode %s, %s: compare(%s,%s)=%d and compare(%s,%s)=%d but compare(%s,%s)=%d", m.Name, what, d.labels[i], d.labels[j], M[i*n+j], d.labels[j], d.labels[k], M[j*n+k], d.labels[i], d.labels[k], M[i*n+k]),
 						map[string]any{"mode": m.Name, "context": whatReplay, "x": d.keys[i], "y": d.keys[j], "z": d.keys[k]})
 				}
 			}
@@ -287,13 +373,14 @@ func checkAxioms(c *collector, m mode, d kdom, M matrix, what string, whatReplay
 func jobMatrix(run *ev.Run, c *collector, m mode, thorough bool, chunk, nchunks int) {
 	d := matrixDomain(m, thorough)
 	n := len(d.keys)
+	tp := pairTable(m, d)
 	M0 := firstMatrix(m, d)
 	seen := map[string]bool{}
 	var ax axiomStats
 	addAx := func(s axiomStats) { ax.refl += s.refl; ax.anti += s.anti; ax.trans += s.trans }
 	if chunk == 0 {
 		seen[string(asBytes(M0))] = true
-		addAx(checkAxioms(c, m, d, M0, "first comparison of a fresh comparer per pair", "fresh comparer per pair, no warm-up"))
+		addAx(checkAxioms(c, m, d, tp, M0, "first comparison of a fresh comparer per pair", "fresh comparer per pair, no warm-up"))
 		run.Add("evaluations", int64(n*n))
 		run.Add("nontrivial_cases", int64(n*n-n))
 	}
@@ -303,8 +390,9 @@ func jobMatrix(run *ev.Run, c *collector, m mode, thorough bool, chunk, nchunks 
 	MW := make(matrix, n*n)
 	for w := from; w < to; w++ {
 		w1, w2 := w/n, w%n
-		diff := -1
+		diff := false
 		for x := 0; x < n; x++ {
+			reported := false
 			for y := 0; y < n; y++ {
 				f := m.fresh()
 				f(d.keys[w1], d.keys[w2])
@@ -312,25 +400,31 @@ func jobMatrix(run *ev.Run, c *collector, m mode, thorough bool, chunk, nchunks 
 				MW[x*n+y] = s
 				if s != M0[x*n+y] {
 					histBad++
-					if diff < 0 {
-						diff = x*n + y
+					diff = true
+					if reported {
+						continue
 					}
+					reported = true
+					// class: JSON types of the field separating the two histories' first keys (w1 vs x).
+					sig := "history-dependence|" + m.Name + "|" + tp[w1*n+x]
+					if c.has(sig) {
+						continue
+					}
+					c.violate(sig, fmt.Sprintf("mode %s: a fresh comparer gives sign compare(%s,%s)=%d as its first comparison, but %d after first comparing (%s,%s)", m.Name, d.labels[x], d.labels[y], M0[x*n+y], s, d.labels[w1], d.labels[w2]),
+						map[string]any{"mode": m.Name, "warmup": []key{d.keys[w1], d.keys[w2]}, "x": d.keys[x], "y": d.keys[y], "sign_fresh": M0[x*n+y], "sign_after_warmup": s})
 				}
 			}
 		}
 		run.Add("evaluations", int64(n*n))
 		run.Add("nontrivial_cases", int64(n*n-n))
-		if diff >= 0 {
+		if diff {
 			warmBad++
-			x, y := diff/n, diff%n
-			c.violate("history|"+m.Name, fmt.Sprintf("mode %s: a fresh comparer gives sign compare(%s,%s)=%d as its first comparison, but %d after first comparing (%s,%s)", m.Name, d.labels[x], d.labels[y], M0[diff], MW[diff], d.labels[w1], d.labels[w2]),
-				map[string]any{"mode": m.Name, "warmup": []key{d.keys[w1], d.keys[w2]}, "x": d.keys[x], "y": d.keys[y], "sign_fresh": M0[diff], "sign_after_warmup": MW[diff]})
 		}
 		hk := string(asBytes(MW))
 		if !seen[hk] {
 			seen[hk] = true
-			what := fmt.Sprintf("fresh comparer after warm-up (%s,%s)", d.labels[w1], d.labels[w2])
-			addAx(checkAxioms(c, m, d, MW, what, map[string]any{"warmup": []key{d.keys[w1], d.keys[w2]}}))
+			what := fmt.Sprintf("fresh comparer after warm-up (%s,%s) for each comparison", d.labels[w1], d.labels[w2])
+			addAx(checkAxioms(c, m, d, tp, MW, what, map[string]any{"warmup": []key{d.keys[w1], d.keys[w2]}}))
 		}
 		if w == from+(to-from)/2 {
 			run.Set("sample", map[string]any{"mode": m.Name, "warmup": d.labels[w1] + " vs " + d.labels[w2], "then": "all " + fmt.Sprint(n*n) + " ordered pairs, fresh comparer each"})
@@ -353,7 +447,7 @@ func asBytes(m matrix) []byte {
 	return b
 }
 
-// jobWarm2: 1-field modes: every warm-up SEQUENCE of two comparisons, then every pair.
+// jobWarm2: every warm-up SEQUENCE of two comparisons, then every pair.
 func jobWarm2(run *ev.Run, c *collector, m mode, vals []jval, chunk, nchunks int) {
 	d := mkKeys(vals, m.TwoFields)
 	n := len(d.keys)
@@ -370,10 +464,16 @@ func jobWarm2(run *ev.Run, c *collector, m mode, vals []jval, chunk, nchunks int
 				s := sign(f(d.keys[p/n], d.keys[p%n]))
 				if s != M0[p] {
 					bad++
-					if c.has("history|" + m.Name) {
+					// class: first warm-up key whose field types differ from the compared pair's first key.
+					tpair := typePair(m, d.keys[w/n], d.keys[p/n])
+					if tpair == "same-types" {
+						tpair = typePair(m, d.keys[v/n], d.keys[p/n])
+					}
+					sig := "history-dependence|" + m.Name + "|" + tpair
+					if c.has(sig) {
 						continue
 					}
-					c.violate("history|"+m.Name, fmt.Sprintf("mode %s: a fresh comparer gives sign compare(%s,%s)=%d as its first comparison, but %d after first comparing (%s,%s) then (%s,%s)", m.Name, d.labels[p/n], d.labels[p%n], M0[p], s, d.labels[w/n], d.labels[w%n], d.labels[v/n], d.labels[v%n]),
+					c.violate(sig, fmt.Sprintf("mode %s: a fresh comparer gives sign compare(%s,%s)=%d as its first comparison, but %d after first comparing (%s,%s) then (%s,%s)", m.Name, d.labels[p/n], d.labels[p%n], M0[p], s, d.labels[w/n], d.labels[w%n], d.labels[v/n], d.labels[v%n]),
 						map[string]any{"mode": m.Name, "warmup": []key{d.keys[w/n], d.keys[w%n], d.keys[v/n], d.keys[v%n]}, "x": d.keys[p/n], "y": d.keys[p%n], "sign_fresh": M0[p], "sign_after_warmup": s})
 				}
 			}
@@ -385,12 +485,44 @@ func jobWarm2(run *ev.Run, c *collector, m mode, vals []jval, chunk, nchunks int
 	run.Add("history_dependent_results", bad)
 }
 
-// jobTriples: every ordered triple on ONE live comparer instance: compare(x,y), compare(y,z), compare(x,z).
+// jobTriples: ONE live comparer instance per case.
+//   pairs:   compare(x,y), compare(y,x), compare(x,x), compare(y,y) for every ordered pair (reflexive, antisymmetric);
+//   triples: compare(x,y), compare(y,z), compare(x,z) for every ordered triple (transitive).
 // withWarm: additionally after every warm-up pair (1-field modes).
-func jobTriples(run *ev.Run, c *collector, m mode, thorough, withWarm bool) {
+func jobTriples(run *ev.Run, c *collector, m mode, thorough, withWarm bool, chunk, nchunks int) {
 	d := matrixDomain(m, thorough)
 	n := len(d.keys)
-	var bad, cnt int64
+	tp := pairTable(m, d)
+	var bad, cnt, pairBad, pairCnt int64
+	warmOf := func(w1, w2 int) (string, any) {
+		if w1 < 0 {
+			return "no warm-up", nil
+		}
+		return fmt.Sprintf("warm-up (%s,%s)", d.labels[w1], d.labels[w2]), []key{d.keys[w1], d.keys[w2]}
+	}
+	pair := func(w1, w2, x, y int) {
+		f := m.fresh()
+		if w1 >= 0 {
+			f(d.keys[w1], d.keys[w2])
+		}
+		a, b, rx, ry := sign(f(d.keys[x], d.keys[y])), sign(f(d.keys[y], d.keys[x])), sign(f(d.keys[x], d.keys[x])), sign(f(d.keys[y], d.keys[y]))
+		pairCnt++
+		if a != -b {
+			pairBad++
+			warm, wr := warmOf(w1, w2)
+			c.violate("not-antisymmetric|"+m.Name+"|one-instance|"+tp[x*n+y], fmt.Sprintf("mode %s, one comparer instance, %s: compare(%s,%s)=%d then compare(%s,%s)=%d (must be opposite)", m.Name, warm, d.labels[x], d.labels[y], a, d.labels[y], d.labels[x], b),
+				map[string]any{"mode": m.Name, "warmup": wr, "x": d.keys[x], "y": d.keys[y]})
+		}
+		for i, r := range []int8{rx, ry} {
+			if r != 0 {
+				pairBad++
+				k := []int{x, y}[i]
+				warm, wr := warmOf(w1, w2)
+				c.violate("not-reflexive|"+m.Name+"|one-instance|"+typesOf(m, d.keys[k]), fmt.Sprintf("mode %s, one comparer instance, %s, after compare(%s,%s) and compare(%s,%s): compare(%s,%s)=%d, want 0", m.Name, warm, d.labels[x], d.labels[y], d.labels[y], d.labels[x], d.labels[k], d.labels[k], r),
+					map[string]any{"mode": m.Name, "warmup": wr, "x": d.keys[x], "y": d.keys[y], "z": d.keys[k]})
+			}
+		}
+	}
 	one := func(w1, w2, x, y, z int) {
 		f := m.fresh()
 		if w1 >= 0 {
@@ -407,18 +539,17 @@ func jobTriples(run *ev.Run, c *collector, m mode, thorough, withWarm bool) {
 		}
 		if !ok {
 			bad++
-			warm := "no warm-up"
-			var wr any
-			if w1 >= 0 {
-				warm = fmt.Sprintf("warm-up (%s,%s)", d.labels[w1], d.labels[w2])
-				wr = []key{d.keys[w1], d.keys[w2]}
-			}
-			c.violate("transitive-live|"+m.Name, fmt.Sprintf("mode %s, one comparer instance, %s: compare(%s,%s)=%d, compare(%s,%s)=%d, compare(%s,%s)=%d", m.Name, warm, d.labels[x], d.labels[y], a, d.labels[y], d.labels[z], b, d.labels[x], d.labels[z], cc),
+			warm, wr := warmOf(w1, w2)
+			c.violate("not-transitive|"+m.Name+"|one-instance|"+tp[x*n+y], fmt.Sprintf("mode %s, one comparer instance, %s: compare(%s,%s)=%d, compare(%s,%s)=%d, compare(%s,%s)=%d", m.Name, warm, d.labels[x], d.labels[y], a, d.labels[y], d.labels[z], b, d.labels[x], d.labels[z], cc),
 				map[string]any{"mode": m.Name, "warmup": wr, "x": d.keys[x], "y": d.keys[y], "z": d.keys[z]})
 		}
 	}
-	for x := 0; x < n; x++ {
+	for x := chunk * n / nchunks; x < (chunk+1)*n/nchunks; x++ {
 		for y := 0; y < n; y++ {
+			pair(-1, -1, x, y)
+			for w := 0; w < n*n; w++ { // pairs are cheap: every warm-up in every mode
+				pair(w/n, w%n, x, y)
+			}
 			for z := 0; z < n; z++ {
 				one(-1, -1, x, y, z)
 				if withWarm {
@@ -429,10 +560,12 @@ func jobTriples(run *ev.Run, c *collector, m mode, thorough, withWarm bool) {
 			}
 		}
 	}
-	run.Add("evaluations", cnt)
+	run.Add("evaluations", cnt+pairCnt)
 	run.Add("live_triples", cnt)
-	run.Add("nontrivial_cases", cnt)
+	run.Add("live_pairs", pairCnt)
+	run.Add("nontrivial_cases", cnt+pairCnt)
 	run.Add("live_triple_failures", bad)
+	run.Add("live_pair_failures", pairBad)
 }
 
 // ---- real stores ----
@@ -539,7 +672,7 @@ func jobBridge(run *ev.Run, c *collector, m mode, chunk, nchunks int) {
 			}
 			if s != M0[x*n+y] {
 				mism++
-				c.violate("bridge|"+m.Name, fmt.Sprintf("mode %s: store holding only %s, fresh OpenJsonBtreeMapKey instance: Find(%s)=%v and Add places it %v, i.e. sign compare=%d; the directly called fresh comparer says %d", m.Name, d.labels[x], d.labels[y], found, sc, s, M0[x*n+y]),
+				c.violate("bridge-mismatch|"+m.Name, fmt.Sprintf("mode %s: store holding only %s, fresh OpenJsonBtreeMapKey instance: Find(%s)=%v and Add places it %v, i.e. sign compare=%d; the directly called fresh comparer says %d", m.Name, d.labels[x], d.labels[y], found, sc, s, M0[x*n+y]),
 					map[string]any{"mode": m.Name, "stored": d.keys[x], "probe": d.keys[y]})
 			}
 		}
@@ -652,7 +785,7 @@ func jobTree(run *ev.Run, c *collector, m mode, thorough bool, chunk, nchunks in
 			}
 			if len(sc) != k {
 				scanBad++
-				c.violate("scan-two-process|"+m.Name, fmt.Sprintf("mode %s: inserted %v, scan returns %d items %v", m.Name, insOrder(p), len(sc), toLabels(sc)), map[string]any{"mode": m.Name, "insert_order": keys})
+				c.violate("two-process-scan-order|"+m.Name, fmt.Sprintf("mode %s: inserted %v, scan returns %d items %v", m.Name, insOrder(p), len(sc), toLabels(sc)), map[string]any{"mode": m.Name, "insert_order": keys})
 			} else if pi == 0 {
 				scan0, p0 = sc, p
 			} else if scan0 != nil {
@@ -680,7 +813,7 @@ func jobTree(run *ev.Run, c *collector, m mode, thorough bool, chunk, nchunks in
 					for i, pp := range p0 {
 						keys0[i] = d.keys[S[pp]]
 					}
-					c.violate("scan-two-process|"+m.Name, fmt.Sprintf("mode %s: the same keys inserted by two fresh instances: insertion order %v scans as %v, insertion order %v scans as %v", m.Name, insOrder(p0), toLabels(scan0), insOrder(p), toLabels(sc)),
+					c.violate("two-process-scan-order|"+m.Name, fmt.Sprintf("mode %s: the same keys inserted by two fresh instances: insertion order %v scans as %v, insertion order %v scans as %v", m.Name, insOrder(p0), toLabels(scan0), insOrder(p), toLabels(sc)),
 						map[string]any{"mode": m.Name, "insert_order_A": keys0, "insert_order_B": keys})
 				}
 			}
@@ -699,7 +832,7 @@ func jobTree(run *ev.Run, c *collector, m mode, thorough bool, chunk, nchunks in
 						for _, x := range q[:qi+1] {
 							lk = append(lk, d.keys[S[x]])
 						}
-						c.violate("find-two-process|"+m.Name, fmt.Sprintf("mode %s: instance A inserted %v and committed; a fresh instance B looking up %v does not find %s although it is in the store", m.Name, insOrder(p), insOrder(q[:qi+1]), d.labels[S[qq]]),
+						c.violate("two-process-lookup-miss|"+m.Name, fmt.Sprintf("mode %s: instance A inserted %v and committed; a fresh instance B looking up %v does not find %s although it is in the store", m.Name, insOrder(p), insOrder(q[:qi+1]), d.labels[S[qq]]),
 							map[string]any{"mode": m.Name, "insert_order_A": keys, "lookup_order_B": lk})
 					}
 				}
@@ -733,6 +866,11 @@ func main() {
 	}
 	run := ev.New(prop, "exploration")
 	thorough := run.Thorough()
+	for i, a := range os.Args {
+		if a == "--replay" && i+1 < len(os.Args) {
+			replayFile(run, os.Args[i+1])
+		}
+	}
 	if job := ev.Job(); job != "" {
 		debug.SetGCPercent(1000) // small heaps, allocation-heavy comparers: avoid spending the time in GC
 		c := &collector{run: run, cands: map[string]ev.Violation{}}
@@ -751,7 +889,7 @@ func main() {
 			}
 			jobWarm2(run, c, m, vals, chunk, nchunks)
 		case "triples":
-			jobTriples(run, c, m, thorough, !m.TwoFields)
+			jobTriples(run, c, m, thorough, !m.TwoFields, chunk, nchunks)
 		case "bridge":
 			jobBridge(run, c, m, chunk, nchunks)
 		case "tree":
@@ -784,7 +922,14 @@ func main() {
 		} else if thorough {
 			add("warm2", m, 32)
 		}
-		add("triples", m, 1)
+		switch {
+		case m.TwoFields && thorough:
+			add("triples", m, 32)
+		case m.TwoFields:
+			add("triples", m, 8)
+		default:
+			add("triples", m, 1)
+		}
 	}
 	for _, m := range modes {
 		if m.TwoFields {
